@@ -179,6 +179,18 @@ func runC13(r *Run) {
 		}
 		r.Check(repl, "R2", fnID(fn)+"#cap-branch-mints-remainder", where, "on the cap branch the amount becomes maxSupply − supply", "on the cap branch the minted amount is not replaced by a value derived from maxSupply − supply")
 	}
+	// one rounding only: the statement says "rounded to the nearest unit"; the amount that is compared with the cap and the
+	// amount that is minted must not be converted with different roundings
+	badConv := ""
+	eachCall(fn, func(ci CallInfo) {
+		switch ci.Name {
+		case "TruncateInt", "TruncateInt64", "Ceil", "Floor", "TruncateDec":
+			if backSlice(callArgs(ci.Instr)[0]).HasCall(func(g CallInfo) bool { return g.Name == "TotalBondedTokens" }) {
+				badConv = ci.Name + " at " + P.Pos(instrPos(ci.Instr))
+			}
+		}
+	})
+	r.Check(badConv == "", "R2", fnID(fn)+"#single-rounding", where, "the block mint is only ever rounded with RoundInt", "the block-mint amount is converted with "+badConv+" somewhere in MintAndAllocate while the minted coin uses RoundInt: the cap comparison and the minted amount can disagree by one unit (supply can end above the maximum)")
 	// wiring
 	if nh, ok := P.FnOK("app.NewHaqq"); ok {
 		fc, _ := P.constOf("github.com/cosmos/cosmos-sdk/x/auth/types", "FeeCollectorName")
